@@ -115,6 +115,28 @@ def run(prog, R):
     ts = ret_type(prog, A + "Cast::to_texpr")
     ok = bool(ts) and all("get_type" in show(t) or deep_strip(t) == ("field", ("arg", 1, "self"), 1) for t in ts)
     R.ob("C08.2-cast-type", "Cast::to_texpr types the expression with its own target type", ok, prog.body(A + "Cast::to_texpr").at if prog.body(A + "Cast::to_texpr") else "", f"{[show(t)[:80] for t in ts or []]}")
+    # the translator's CastExpression arm: every path that returns an expression returns
+    # Cast::new(<translated operand>, scalar_type_to_type(<the written type>)).to_texpr()
+    exb = prog.body(S2S + "expr_to_asg_texpr")
+    if exb:
+        psx, _ = paths(prog, exb.npath)
+        nca, badc = 0, []
+        for p in psx:
+            if "__diverged__" in p.env or arm_of(prog, p, EXPR_ENUM, "expr") != "CastExpression":
+                continue
+            r = deep_strip(p.env.get(0))
+            if not (r[0] == "adt" and r[1].endswith("Option::Some") and r[2]):
+                continue
+            nca += 1
+            e = deep_strip(r[2][0])
+            okc = e[0] == "call" and e[1].endswith("Cast::to_texpr") and deep_strip(e[2][0])[0] == "call" and deep_strip(e[2][0])[1].endswith("Cast::new")
+            if okc:
+                cn_ = deep_strip(e[2][0])
+                opnd, ty = show(cn_[2][0]), show(cn_[2][1])
+                okc = "expr_to_asg_texpr" in opnd and "scalar_type_to_type" in ty and "scalar_type(" in ty
+            if not okc:
+                badc.append(show(e)[:90])
+        R.ob("C08.2-cast-type", "translator: a cast expression becomes Cast::new(operand, written type) on every path", nca >= 1 and not badc, exb.at, f"{nca} returning paths of the CastExpression arm; deviating: {badc[:2]}")
     cg = prog.body(A + "Cast::get_type")
     if cg:
         ps = SymExec(prog, cg).paths()
@@ -222,8 +244,8 @@ def run(prog, R):
             if not okt:
                 bad.append(("type", show(ty)[:40]))
         R.ob("C08.3-operands-wrapped", "operand unwrapped iff its type == promoted type, else Cast(operand, promoted); result type = promoted", not bad and n == 4, nw.at, f"{n} arithmetic paths; {bad[:3]}")
-    R.premises(prog, "C08.4-premise", ["C20:C20.5-", "C20:C20.2-width-table", "C20:C20.2-is_const-table", "C20:C20.4-"],
-               "the justification rule accepts `equal_up_to_constness(target, value)` and `can_cast_literal` as written: their decision tables must be the ones C20 checks")
+    R.premises(prog, "C08.4-premise", ["C20:C20."],
+               "the common type of an arithmetic expression is promote_types(..) and the justification rule accepts `equal_up_to_constness(target, value)` and `can_cast_literal` as written: their decision tables must be the ones C20 checks")
     # ---- C08.4 justification on all paths
     cd = R.anchor(prog, S2S + "classical_declaration_statement_to_asg_stmt")
     if cd:
